@@ -948,6 +948,9 @@ unsigned int CppCheck::checkInternal(const FileWithDetails& file, const std::str
     const int maxConfigs = mSettings.getMaxConfigs();
 
     mLogger->resetExitCode();
+    // the duplicate filters belong to one file: they are cleared at the end of this function, but not on its early returns
+    // (preprocessor error, results taken from the build dir, --check-config)
+    mLogger->clear();
 
     if (Settings::terminated())
         return mLogger->exitcode();
